@@ -825,9 +825,9 @@ def gen_stuck_doc(rng, base: L.Base):
 
     def dep(i):
         r = rng.random()
-        if r < 0.35:
+        if r < 0.45:
             return None
-        if r < 0.55:
+        if r < 0.56:
             return rng.choice(ghosts)
         return rng.choice([q for q in pool if q != pool[i]] or ghosts)
 
@@ -852,7 +852,7 @@ def gen_stuck_doc(rng, base: L.Base):
                         "sync": [["classes", [so]]]})
             pieces.append({"deps": [], "binds": [x], "then": [{"deps": [y] if y else [], "binds": [], "then": []}]})
     for _ in range(rng.randint(1, 3)):  # instructions below promised parents
-        x = rng.choice(pool + ghosts[:1])
+        x = rng.choice(pool + pool + ghosts[:1])
         y = dep(0) if rng.random() < 0.7 else None
         a = fresh()
         if rng.random() < 0.5:
